@@ -70,6 +70,17 @@
                              that already holds another voucher): res as in kind 6; the voucher's
                              fields after consumption
 
+   19 kt region <orig> <mut> cls eq_any eq_all remeq selfok crossok
+                             MarshalPrivateKey(sk) = orig, one edit of it = mut (region: 0 none,
+                             1 protobuf framing, 2 Ed25519 seed, 3 Ed25519 public half, 4 other key
+                             data, 5 truncation, 6 extension, 7 legacy 96-byte Ed25519 form, 8 legacy
+                             form with diverging copies of the public half); UnmarshalPrivateKey(mut):
+                             cls as in kind 8; when accepted: eq_any / eq_all = some / all of
+                             Equals (both directions) and KeyEqual say "equal to sk", remeq =
+                             MarshalPrivateKey(parsed) = orig, selfok = a signature made with the
+                             parsed key verifies under the parsed key's own GetPublic(), crossok = it
+                             verifies under the ORIGINAL public key
+
    Kind 6 in detail.  The key table lists every key of the case (canon =
    MarshalPublicKey(pk), goid = IDFromPublicKey(pk) as computed by Go), the seal
    table every signature value issued in the case: Sign(key kidx,
@@ -94,6 +105,8 @@
    signing key, byte for byte.  kind 11: equal keys have equal IDs.  kind 12:
    MatchesPublicKey iff the ID is IDFromPublicKey(pk).  kind 13: every RSA size
    that can be generated ([MinRsaKeyBits, maxRsaKeyBits]) unmarshals and round-trips.
+   kind 19: a key reported equal to sk is interchangeable with sk; every accepted
+   private key signs for its own public key; the untouched blob round-trips.
    kind 7: verified => the signer's key and the signed message;
    the untouched triple verifies.  kind 5: the round trips.  kinds 3/4:
    reading the pre-image back gives exactly the triple; equal pre-images only
@@ -350,6 +363,18 @@ Definition monitor7 (same : Z) (m s m2 s2 : bytes) (res : Z) : list Z :=
       (* and the untouched (key, message, signature) does verify *)
       (negb ((same =? 1) && beq m m2 && beq s s2) || (res =? 1), 72) ] viol.
 
+(* kind 19: UnmarshalPrivateKey on an edited blob *)
+Definition monitor19 (untouched : bool) (cls eqany eqall remeq selfok crossok : Z) : list Z :=
+  first_fail
+    [ (* marshalling then unmarshalling yields an equal key *)
+      (negb untouched || ((cls =? 3) && (eqall =? 1) && (remeq =? 1)), 190);
+      (* a key reported equal to the original is interchangeable with it: what it signs
+         verifies under the original public key (an equal encoding is not demanded: RSA keeps a
+         redundant private exponent next to the CRT values it signs with) *)
+      (negb ((cls =? 3) && (eqany =? 1)) || (crossok =? 1), 191);
+      (* whatever unmarshals signs for its own public key *)
+      (negb (cls =? 3) || (selfok =? 1), 192) ] viol.
+
 Fixpoint get_comps (n : nat) (l : list Z) : option (list (N * bytes) * list Z) :=
   match n with
   | O => Some ([], l)
@@ -495,6 +520,34 @@ Definition conform_case (l : list Z) : list Z :=
       end
   | [13; bits; priv; cls; rt] =>
       if Bool.eqb (cls =? 3) (rsa_ok bits) then [] else mism 131
+  | 19 :: kt :: region :: r =>
+      match (do (orig, r1) <- get_bytes r; do (mut, r2) <- get_bytes r1;
+             match r2 with [cls; eqany; eqall; remeq; selfok; crossok] => Some (orig, mut, cls, eqany) | _ => None end) with
+      | Some (orig, mut, cls, eqany) =>
+          match parse_privkey mut with
+          | Some (t, d) =>
+              if negb (key_type_ok t) then (if cls =? 1 then [] else mism 191)
+              else if N.eqb t 1 then
+                (* Ed25519: acceptance and equality are decided by the two halves *)
+                match ed25519_priv_parts d with
+                | Some parts =>
+                    first_fail
+                      [ (cls =? 3, 192);
+                        (match parse_privkey orig with
+                         | Some (1%N, d0) =>
+                             match ed25519_priv_parts d0 with
+                             | Some parts0 => Bool.eqb (eqany =? 1) (ed25519_priv_equal parts parts0)
+                             | None => true
+                             end
+                         | _ => eqany =? 0
+                         end, 193) ] mism
+                | None => if cls =? 2 then [] else mism 192
+                end
+              else if (cls =? 2) || (cls =? 3) then [] else mism 191
+          | None => if cls =? 0 then [] else mism 190
+          end
+      | None => malformed 19
+      end
   | 14 :: ig :: ie :: r =>
       match (do (canon, r1) <- get_bytes r; do (dg, r2) <- get_bytes r1; do (id, r3) <- get_bytes r2;
              match r3 with [ex] => Some (canon, dg, id, ex) | _ => None end) with
@@ -646,6 +699,16 @@ Definition monitor_case (l : list Z) : list Z :=
   | [13; bits; priv; cls; rt] =>
       (* every size that can be generated unmarshals and round-trips *)
       if rsa_ok bits && negb ((cls =? 3) && (rt =? 1)) then viol 131 else []
+  | 19 :: kt :: region :: r =>
+      match (do (orig, r1) <- get_bytes r; do (mut, r2) <- get_bytes r1;
+             match r2 with
+             | [cls; eqany; eqall; remeq; selfok; crossok] => Some (orig, mut, cls, (eqany, eqall, remeq, (selfok, crossok)))
+             | _ => None
+             end) with
+      | Some (orig, mut, cls, (eqany, eqall, remeq, (selfok, crossok))) =>
+          monitor19 (beq orig mut) cls eqany eqall remeq selfok crossok
+      | None => malformed 19
+      end
   | 14 :: ig :: ie :: r =>
       match (do (canon, r1) <- get_bytes r; do (dg, r2) <- get_bytes r1; do (id, r3) <- get_bytes r2;
              match r3 with [ex] => Some (id, ex) | _ => None end) with
